@@ -44,6 +44,9 @@ CHECKS = {
     'C10': dict(level='model_checking', engine='mirx', technique=MT,
                 text='On every Ok path of the token parser over symbolic strings each expanded combo has two different cards and a weight in [0,1] (z3 FP); product lemma x,y in [0,1] => x*y in [0,1]; the no-card-twice consequence is the legality obligation of C02.',
                 note='Bound: token length; weight literals <= 7 significant digits exact, longer by interval (S3).', ref='6/C10'),
+    'C11': dict(level='other', engine='kani+mirx', technique=KT + ' for the suit-relabelling and seat-exchange lemmas; ' + MT + ' for the enumeration lemma; composition argued in writing',
+                text='Four solver-checked lemmas on the real code (evaluation invariant under every suit permutation; flags, hands and winner_len follow the players under a seat exchange; the yielded deals are exactly the legal deals, a definition symmetric under both relabellings; k shares of 1/k make one pot) plus a written composition argument. A direct relational query over two complete enumerations is out of reach.',
+                note='Level "other": the lemmas are solver-decided, the composition is an argument. Quick: whole-function suit invariance on a seed-chosen 4-rank window, seat exchange for 2 players.', ref='6/C11'),
     'C12': dict(level='model_checking', engine='mirx', technique=MT + '; map with symbolic presence flags so that 3^k patterns are covered by a handful of paths',
                 text='rank_pairs() reports R with weight w iff all combos of R are present with f32-equal weight w; orphan_card_pairs() is exactly the present combos not covered by a reported pair with their own weights; the two views partition card_pairs().',
                 note='Populated: one rank pair (thorough: also 34 two-rank-pair configurations) + 2 stray combos; everything else absent. S1.', ref='6/C12'),
@@ -53,6 +56,9 @@ CHECKS = {
     'C14': dict(level='proof', engine='kani', technique=KT,
                 text='All 52x51 ordered pairs symbolic: new(a,b)==new(b,a), canonical order, same card set, identical byte sequences fed to an arbitrary Hasher; both card orders of a text parse to new(c0,c1).',
                 note='Hash equality shown for every hasher via a recording Hasher.', ref='6/C14'),
+    'C15': dict(level='model_checking', engine='mirx', technique=MT + ' over a two-iterator schedule; MIR audit for static/thread-local items; compile-time Send + Sync assertion (rustc) for the thread clause',
+                text='Interleavings: the outcomes of one iterator\'s next() are identical whether or not another iterator\'s next() ran first in the same machine, from fully symbolic states; the only memory two calls could share (static / thread-local items) is explicit in MIR and audited. Thread schedules are NOT explored: the claim there is type-level only (Send + Sync of the public types).',
+                note='Kani does not model threads and Engine M has no memory model for data races; the step from no shared mutable state + Send/Sync to any thread schedule is the safety guarantee of Rust, assumed.', ref='6/C15'),
     'C16': dict(level='model_checking', engine='mirx', technique=MT + ' with the f32 kernel in the FloatingPoint theory of z3 (fp.sqrt, roundToIntegral, fmod as x - RTZ(x), saturating casts)',
                 text='Two consecutive loop iterations of calculate_scopes from the real MIR with symbolic (count, i): no overflow assert fires, chain, first start (0,1), last end (48,49), monotone, every end a valid position.',
                 note='Bound: worker count N (quick 32, thorough 256). Translator validated against native runs bit for bit.', ref='6/C16'),
